@@ -247,7 +247,7 @@ def enum_gphp(tier):
         for fun in (False, True):
             for onto in (False, True):
                 c = dict(g)
-                c['as'] = ('networkx', 'cnfgen', 'networkx-rl', 'cnfgen')[(i + fun + 2 * onto) % 4]
+                c['as'] = ('networkx', 'cnfgen', 'networkx-rl', 'cnfgen-inspected', 'cnfgen')[(i + fun + 2 * onto) % 5]
                 yield {'graph': c, 'functional': fun, 'onto': onto, 'cls': 'OPB' if (i + fun) % 2 else 'CNF'}
 
 
@@ -304,6 +304,10 @@ def run_bphp(case):
 
 def enum_bphp(tier):
     maxv = QUICK_MAXV if tier == 'quick' else THOROUGH_MAXV
+    for h in (255, 256, 257, 300, 511, 512, 513, 1000, 1025):
+        for m in (1, 2):
+            if m * (h - 1).bit_length() <= maxv and not (tier == 'quick' and m == 2 and h > 520):
+                yield {'m': m, 'n': h, 'cls': 'CNF' if h % 2 else 'OPB'}
     for m in range(0, 12):
         for h in range(0, 18):
             bits = (h - 1).bit_length() if h >= 1 else 0
@@ -447,7 +451,7 @@ def enum_matching(tier):
     nmax = 5 if tier == 'quick' else 6
     for i, g in enumerate(gg.all_simple_graphs(nmax)):
         c = dict(g)
-        c['as'] = 'networkx' if i % 3 == 0 else 'cnfgen'
+        c['as'] = ('networkx', 'cnfgen', 'cnfgen-grown', 'cnfgen', 'networkx-rev')[i % 5]
         yield {'graph': c, 'cls': 'OPB' if i % 2 else 'CNF'}
 
 
@@ -496,7 +500,7 @@ def enum_subsetcard(tier):
     for i, g in enumerate(gg.all_bipartite_graphs(*lim)):
         for eq in (False, True):
             c = dict(g)
-            c['as'] = ('networkx', 'cnfgen', 'networkx-rl', 'cnfgen')[(i + eq) % 4]
+            c['as'] = ('networkx', 'cnfgen', 'networkx-rl', 'cnfgen-inspected', 'cnfgen')[(i + eq) % 5]
             yield {'graph': c, 'equalities': eq, 'cls': 'OPB' if (i + eq) % 2 else 'CNF'}
 
 
